@@ -550,7 +550,14 @@ func groupItemsByKey(obj *jparse.ObjectNode, items reflect.Value, env *environme
 
 		for j := 0; j < nItems; j++ {
 
-			v, err := eval(keyNode, items.Index(j), env)
+			item := items.Index(j)
+			if item.Kind() == reflect.Interface && item.IsNil() {
+				// There is nothing to group: the key is
+				// evaluated without a context item.
+				item = undefined
+			}
+
+			v, err := eval(keyNode, item, env)
 			if err != nil {
 				return nil, nil, err
 			}
